@@ -64,6 +64,9 @@ struct ConnPlan {
     /// what the server application does with this client's connection attempts: 0 accept,
     /// 1 `Incoming::refuse`, 2 drop the `Incoming` (documented to refuse), 3 `Incoming::ignore`
     gate: u8,
+    /// the client application loses interest: the `Connecting` future is dropped after this many
+    /// polls unless the handshake has completed by then
+    abandon_connect: Option<u32>,
 }
 
 #[derive(Default)]
@@ -433,7 +436,24 @@ async fn client_stream(sim: Sim, res: Res, lbl: Lbl, conn: Connection, ci: u32, 
 async fn client_main(sim: Sim, res: Res, lbl: Lbl, ep: Endpoint, cfg: quinn::ClientConfig, server: SocketAddr, ci: u32, plan: ConnPlan) {
     lbl.set("connect");
     let conn = match ep.connect_with(cfg, server, "localhost") {
-        Ok(c) => match c.await {
+        Ok(c) => match match plan.abandon_connect {
+            Some(n) => match poll_n(c, n).await {
+                Some(r) => r,
+                None => {
+                    // the only handle to the connection is gone: it is closed implicitly, drains,
+                    // and the endpoint becomes idle
+                    sim.with(|s| s.probes.hit("connecting_dropped_while_pending"));
+                    lbl.set("wait_idle() after dropping Connecting");
+                    ep.wait_idle().await;
+                    res.lock().unwrap().open_conns_at_end.push(ep.open_connections());
+                    drop(ep);
+                    res.lock().unwrap().clients_done += 1;
+                    lbl.set("done");
+                    return;
+                }
+            },
+            None => c.await,
+        } {
             Ok(_) if plan.gate != 0 => {
                 sim.violate("async-refused-connection-established", format!("client {}: connect() succeeded although the server application {} every attempt of this client", ci, if plan.gate == 3 { "ignores" } else { "refuses" }));
                 return;
@@ -892,7 +912,7 @@ fn draw_plan(ch: &mut Chooser, big: bool) -> ConnPlan {
             s.reset_after = None;
         }
     }
-    ConnPlan { streams, dgrams: if ch.chance("c18.dgrams", 1, 2) { ch.range("c18.n_dgrams", 1, 20) as u32 } else { 0 }, explicit_close: ch.chance("c18.explicit_close", 1, 2), parked: ch.chance("c18.parked", 1, 2), rebind: None, gate: 0 }
+    ConnPlan { streams, dgrams: if ch.chance("c18.dgrams", 1, 2) { ch.range("c18.n_dgrams", 1, 20) as u32 } else { 0 }, explicit_close: ch.chance("c18.explicit_close", 1, 2), parked: ch.chance("c18.parked", 1, 2), rebind: None, gate: 0, abandon_connect: None }
 }
 
 fn run(mut ch: Chooser, ctx: &RunCtx, faults: bool, big: bool) -> RunOut {
@@ -912,6 +932,9 @@ fn run(mut ch: Chooser, ctx: &RunCtx, faults: bool, big: bool) -> RunOut {
         if ch.chance("c18.gate", 1, 6) {
             p.gate = 1 + ch.choose("c18.gate_kind", 3) as u8;
             p.rebind = None;
+        }
+        if ch.chance("c18.abandon_connect", 1, 8) {
+            p.abandon_connect = Some(1 + ch.choose("c18.abandon_polls", 6));
         }
     }
     let knobs_s = if ch.chance("c18.default_knobs", 1, 2) { TKnobs::default() } else { TKnobs::draw(&mut ch) };
@@ -1262,7 +1285,7 @@ fn run_0rtt(mut ch: Chooser, ctx: &RunCtx) -> RunOut {
                 reset_after: None,
             })
             .collect();
-        ConnPlan { streams, dgrams: 0, explicit_close: true, parked: false, rebind: None, gate: 0 }
+        ConnPlan { streams, dgrams: 0, explicit_close: true, parked: false, rebind: None, gate: 0, abandon_connect: None }
     };
     let first = small(&mut ch, 2);
     let early = small(&mut ch, 3);
